@@ -239,3 +239,20 @@ def _deq(a, b) -> bool:
             return True if a == b else False
     except Exception:
         return a == b
+
+
+def shard_job(job: dict, var: str = "a", coarse: bool = True) -> list:
+    """Split one job into disjoint jobs by the class of free variable `var` (params['spec'][var]['extra'] is conjoined)."""
+    out = []
+    spec = job["params"].get("spec", {})
+    for name, extra in shard_extras(var, coarse=coarse, exclude=spec.get(var, {}).get("exclude", "")):
+        j = dict(job)
+        p = dict(job["params"])
+        sp = {k: dict(v) for k, v in spec.items()}
+        old = sp.get(var, {}).get("extra")
+        sp[var] = dict(sp.get(var, {}), extra=(f"({old}) and ({extra})" if old else extra))
+        p["spec"] = sp
+        p["shard"] = name
+        j["params"] = p
+        out.append(j)
+    return out
